@@ -4,6 +4,10 @@ import json, os, sys
 HERE = os.path.dirname(os.path.abspath(__file__))
 
 CHECKS = {
+ 'C01': dict(technique='runtime monitor: structural invariant on every returned result over a generated configuration grammar of all grader classes; debug-leak canaries (distinctive literals in author answers, scripted sample values, instructor variable names, log markers) with debug=True as positive control',
+             text='Exploration by runtime monitoring: tens of thousands of calls on generated configurations of String, Formula, Numerical, Matrix, SingleList (nested), Interval, Sum and List graders (ordered/unordered, subgrader lists, groupings, several answer lists; alternatives with partial credit, messages, pinned ok, expect tuples, comparers, attempt-based credit x attempts, debug on/off) with right, partly right, wrong, malformed, empty and unicode-garbage inputs; each returned value is checked for exact key sets, one entry per input, grade type/range, msg type, ok/grade agreement and absence (presence when debug=True) of debug material.',
+             note='Trusted: readings R1 (SumGrader short form) and R2 (pinned ok); canary literals chosen not to occur in legitimate messages.',
+             ref='DESIGN.md section 4, C01'),
  'C08': dict(technique='runtime monitor: real-code differential -- k single-alternative graders built from the same spec define what the input earns against each alternative; the full grader is called in every listing order and must return the maximum, a longest message among the best, wrong_msg exactly when applicable',
              text='Exploration by runtime monitoring: for String, Numerical, Formula (scripted samples), Matrix and SingleList graders with 1-6 alternatives (expect tuples, credits incl. 0, messages of different lengths, short/long/no wrong_msg) the full grader is built in every listing order (k<=4; 24 orders beyond) and called on inputs matching none/one/several alternatives; grade, message and order-independence are compared with the single-alternative graders; the same law is checked entrywise inside ordered and unordered ListGraders.',
              note='Trusted: the single-alternative graders (real code) as reference; R5 for ties.',
